@@ -147,7 +147,7 @@ def make_spec(r, dt, pat, n=None, order=None, only=None):
         else:
             opts = ['int8', 'uint8', 'int16', 'uint16', 'int32', 'uint32', 'float32', 'float64']
         cast = r.choice([o for o in opts if o != np.dtype(dt).name] or opts)
-        sp['ops'][-1]['cast_dtype'] = {'$dtype': cast, 'as': r.choice(['type', 'dtype'])}
+        sp['ops'][-1]['cast_dtype'] = {'$dtype': cast, 'as': gen.cast_form(r)}
         sp['index_cast'] = cast
     sp['ops'].append(gen.channel_op('VAL', '<f4', (n, 2), fill={'kind': 'pos', 'tag': 3}))
     fat = {}
